@@ -30,6 +30,9 @@ func (childHandler) Handle(ctx context.Context, args *raw.Args) (*raw.Res, error
 	if args.Method == "slow" {
 		time.Sleep(150 * time.Millisecond)
 	}
+	if args.Method == "hang" { // never answers within the caller's ttl (id re-use sequences)
+		<-ctx.Done()
+	}
 	return &raw.Res{Arg2: args.Arg2, Arg3: args.Arg3}, nil
 }
 func (childHandler) OnError(ctx context.Context, err error) {}
@@ -38,6 +41,10 @@ func (childHandler) OnError(ctx context.Context, err error) {}
 //
 //	-> "READY <hostport>"          after start
 //	<- "call <hostport>"           make an outbound call to a (raw) peer; -> "CALLDONE <ok|err ...>"
+//	role relays only (forced schedules, engine_peerinput_race.go):
+//	<- "addsvc <service> <hostport>"                 -> "OK"
+//	<- "park <point> <id>" / "release <point> <id>"  -> "OK" / "RELEASED <bool>"
+//	<- "waitarrived <point> <id> <ms>"               -> "ARRIVED <bool>"
 //	stdin EOF                      exit 0
 func runChild(role string) {
 	opts := &tchannel.ChannelOptions{Logger: tchannel.NullLogger}
@@ -47,13 +54,27 @@ func runChild(role string) {
 	}
 	server.Register(raw.Wrap(childHandler{}), "echo")
 	server.Register(raw.Wrap(childHandler{}), "slow")
+	server.Register(raw.Wrap(childHandler{}), "hang")
 	if err := server.ListenAndServe("127.0.0.1:0"); err != nil {
 		panic(err)
 	}
 	target := server.PeerInfo().HostPort
-	if role == "relay" {
-		rh := relaytest.NewStubRelayHost()
-		rly, err := tchannel.NewChannel("relay", &tchannel.ChannelOptions{RelayHost: rh, Logger: tchannel.NullLogger})
+	var rh *relaytest.StubRelayHost
+	var sched *Sched
+	if strings.HasPrefix(role, "relay") {
+		rh = relaytest.NewStubRelayHost()
+		ropts := &tchannel.ChannelOptions{RelayHost: rh, Logger: tchannel.NullLogger}
+		switch role {
+		case "relayc": // cancel frames are relayed
+			ropts.DefaultConnectionOptions.PropagateCancel = true
+		case "relayt": // the "too many tombstones: delete immediately" path of relayItems.Entomb
+			ropts.RelayMaxTombs = 1
+		case "relays": // schedule points under the harness' control, cancel relayed, a 2-slot send queue
+			ropts.DefaultConnectionOptions.PropagateCancel = true
+			ropts.DefaultConnectionOptions.SendBufferSize = 2
+			sched = NewSched()
+		}
+		rly, err := tchannel.NewChannel("relay", ropts)
 		if err != nil {
 			panic(err)
 		}
@@ -76,6 +97,28 @@ func runChild(role string) {
 				fmt.Printf("CALLDONE err %v\n", strings.ReplaceAll(err.Error(), "\n", " "))
 			} else {
 				fmt.Printf("CALLDONE ok\n")
+			}
+			continue
+		}
+		if w := strings.Fields(line); sched != nil && len(w) >= 3 {
+			var id uint64
+			fmt.Sscan(w[2], &id)
+			switch w[0] {
+			case "addsvc":
+				rh.Add(w[1], w[2])
+				fmt.Printf("OK\n")
+			case "park":
+				sched.ParkAtID(w[1], uint32(id))
+				fmt.Printf("OK\n")
+			case "release":
+				sched.Unpark(key(w[1], uint32(id)))
+				fmt.Printf("RELEASED %v\n", sched.Release(key(w[1], uint32(id))))
+			case "waitarrived":
+				ms := 1000
+				if len(w) > 3 {
+					fmt.Sscan(w[3], &ms)
+				}
+				fmt.Printf("ARRIVED %v\n", sched.WaitArrived(key(w[1], uint32(id)), 1, time.Duration(ms)*time.Millisecond))
 			}
 		}
 	}
@@ -365,6 +408,10 @@ func lastLines(s string) string {
 }
 
 func enginePeerInput(rng *rand.Rand, n int, tier string, o *Out) {
+	// id re-use over the tombstone period (engine_peerinput_reuse.go): started first, runs in the
+	// background against its own child processes, reported after the other cases
+	finishReuse := c03rStart(rng, n, tier, o)
+	defer finishReuse()
 	for _, role := range []string{"server", "relay"} {
 		c, err := startChild(role)
 		if err != nil {
